@@ -367,10 +367,20 @@ Qed.
 Lemma symbols_nonempty : Forall (fun p : str * tkind => 1 <= length (fst p)) symbols.
 Proof. unfold symbols. repeat constructor. Qed.
 
+Lemma word_tail_le r : word_tail r <= length r.
+Proof.
+  induction r as [|c r IH]; [simpl; lia|].
+  cbn [word_tail length].
+  destruct (N.eqb c 45).
+  - destruct r as [|d [|e r2]]; try lia.
+    destruct ((N.eqb d 125 || N.eqb d 37) && N.eqb e 125); lia.
+  - destruct (is_word_start c || is_digit c); lia.
+Qed.
+
 Lemma word_len_le r : word_len r <= length r.
 Proof.
   unfold word_len. destruct r as [|c r]; [simpl; lia|].
-  destruct (is_word_start c); [|simpl; lia]. pose proof (take_while_len is_word_char r). simpl. lia.
+  destruct (is_word_start c); [|simpl; lia]. pose proof (word_tail_le r). simpl. lia.
 Qed.
 
 Lemma index_len_le r : index_len r <= length r.
